@@ -246,6 +246,10 @@ pub fn run_engine<E: Engine + 'static>(engine: Arc<E>, tier: Tier, seed: u64) ->
         Tier::Quick => engine.quick_cases(),
         Tier::Thorough => engine.thorough_cases(),
     };
+    let total = std::env::var("VERIF_CASES")
+        .ok()
+        .and_then(|v| v.parse().ok())
+        .unwrap_or(total);
     let threads = n_threads().min(total.max(1));
     let per_thread = total.div_ceil(threads);
     let executed = Arc::new(AtomicU64::new(0));
